@@ -92,6 +92,15 @@ func c05Exprs(thorough bool) []any {
 		ls = append(ls, "0", "1.5", "b")
 	}
 	out := matchExprs(sels, ls)
+	// keys that contain the separator / escape characters of the JSON-pointer spelling, present and absent ones, in the pointer
+	// spelling and in the bracket spelling (a key that IS the text "~1" is spelled ~01 in a pointer)
+	for _, s := range [][]string{{"a", "~1"}, {"a", "x/y"}, {"a", "p~q"}, {"a", "/"}, {"a", "x~1y"}, {"a", "~0"}, {"a", "a", "app.io/name"}, {"a", "a", "app.io~1name"}, {"a", "x/y", "c"}} {
+		for _, m := range matchExprs([][]string{s}, []string{"1"}) {
+			mm := *(m.(*Match))
+			mm.JP = true
+			out = append(out, m, &mm)
+		}
+	}
 	// quantifiers over possibly absent collections, and value aliases whose sub-paths are absent
 	for _, s := range sels {
 		if len(s) > 3 {
@@ -224,14 +233,14 @@ func runC05(c *eng.Ctx) {
 				continue
 			}
 			cfg := Cfg{Tag: "bexpr", Unknown: u, Hook: hook}
-			ev, err := bexpr.CreateEvaluator(src, optsFor(cfg)...)
+			ev, err := createWith(src, cfg)
 			if err != nil {
 				c.Violate(eng.Violation{Kind: "harness-expression-rejected", Key: "create: " + src, Detail: err.Error()})
 				break
 			}
 			var plain *bexpr.Evaluator
 			if u != nil {
-				plain, _ = bexpr.CreateEvaluator(src, optsFor(Cfg{Tag: "bexpr", Hook: hook})...)
+				plain, _ = createWith(src, Cfg{Tag: "bexpr", Hook: hook})
 			}
 			for di, d := range ds {
 				if !c.Want("d", di) {
